@@ -384,9 +384,12 @@ def handle (case obs : List String) : String × String :=
   | some (c, _) =>
     let own1 := c.own.map (·.1)
     let own1a := c.own.map (·.2)
-    let model := "v1 " ++ modelVersion c own1 ++ " v1a " ++ modelVersion c own1a
+    let m1 := modelVersion c own1
+    let cls := if m1.startsWith "ok" then "built"
+      else if m1.startsWith "build-err decode" then "rejected-undecodable" else "rejected-unnamed"
+    let model := cls ++ " v1 " ++ m1 ++ " v1a " ++ modelVersion c own1a
     let v := match obs with
-      | "v1" :: rest =>
+      | _ :: "v1" :: rest =>
         let (o1, o1a) := splitAt rest "v1a"
         let clauses := judgeVersion c own1 (oBuild o1).1 ++ judgeVersion c own1a (oBuild o1a).1
           ++ [("versions-agree", c.inc || decide (o1 = o1a))]
